@@ -8,6 +8,7 @@ import time
 import kanirun
 
 VERIF = os.path.dirname(os.path.dirname(os.path.abspath(__file__)))
+OUT = os.environ.get("VERIF_OUT", VERIF)
 
 
 NATIVE_BUDGET = [1]
@@ -24,8 +25,8 @@ def extract_playback(out):
 
 
 def make_replay(pid, h, r, failed_checks, target_dir, scratch, extract=True):
-    os.makedirs(os.path.join(VERIF, "replays"), exist_ok=True)
-    path = os.path.join(VERIF, "replays", "%s-%s-%s.json" % (pid, h.name, r["fs"]))
+    os.makedirs(os.path.join(OUT, "replays"), exist_ok=True)
+    path = os.path.join(OUT, "replays", "%s-%s-%s.json" % (pid, h.name, r["fs"]))
     rep = {
         "property": pid,
         "harness": h.fq,
